@@ -24,7 +24,7 @@ from sa.astx import NotConst, assigned_targets, call_name, dotted, src, walk_loc
 __all__ = [
     "NONNULL", "FALSY", "peval", "test_value", "reach_under", "path_under", "must_pass_under", "implied",
     "is_self_attr", "self_assigns", "call_nodes", "calls_with", "const_value_is", "written_names", "succ_of",
-    "facts_at", "handler_names", "covers", "no_exc", "first_arg", "name_of", "slice_parts", "value_returned", "local_def", "test_value",
+    "facts_at", "undecided_tests", "handler_names", "covers", "no_exc", "first_arg", "name_of", "slice_parts", "value_returned", "local_def", "test_value",
 ]
 
 
@@ -348,6 +348,18 @@ def facts_at(g, facts, nodes: Iterable[int], srcs: Optional[Iterable[int]] = Non
     nodes = set(nodes)
     prev = _explore(g, facts, list(srcs) if srcs is not None else [g.entry], (), exc)
     return [dict(f) for n, f in prev if n in nodes]
+
+
+def undecided_tests(g, facts, srcs: Optional[Iterable[int]] = None, avoid: Iterable[int] = ()) -> List[int]:
+    """Test nodes reached (from ``srcs`` under ``facts``) whose outcome the facts do not determine.  Empty = the fact set is a
+    complete description of everything the explored region branches on (the basis of a finite-exhaustive claim)."""
+    prev = _explore(g, facts, list(srcs) if srcs is not None else [g.entry], avoid, False)
+    out = []
+    for n, f in prev:
+        node = g.nodes[n]
+        if node.kind == "test" and test_value(node.ast, dict(f)) is None and n not in out:
+            out.append(n)
+    return out
 
 
 def must_pass_under(g, facts, via: Iterable[int], srcs: Optional[Iterable[int]] = None, to: Optional[Iterable[int]] = None,
